@@ -1,5 +1,150 @@
+//! Case kind `"lex"` (property C14): runs `Lexer::lex_to_eof(true)` and
+//! `Lexer::lex_to_eof(false)` over a byte string and reports, for each of the
+//! two runs, either the token list or the located error.
+//!
+//! input : `{"k":"lex","bytes":[b0,b1,...]}` or `{"k":"lex","hex":"6162.."}`;
+//!         optional `"values": false` omits token values (kinds and spans only).
+//! output: `{"len":N, "all": R, "nows": R}` where `R` is either
+//!         `{"tokens":[{"kind":K,"value":V,"start":S,"end":E}, ...]}` or
+//!         `{"error":{"kind":K,"start":S,"end":E}}`.
+//!
+//! `kind` is the variant name of `TokenKind` (`EndOfFile`, `Whitespace`,
+//! `Comment`, `OtherOp`, `Ident`, `Number`, `String`, `TextBlock`) or, for
+//! `TokenKind::Simple`, the variant name of `STokenKind`. `value` is
+//!   * `Ident`, `OtherOp`: the text,
+//!   * `String`, `TextBlock`: the sequence of code points,
+//!   * `Number`: `{"digits": "...", "exp": i64}`,
+//!   * otherwise absent.
+//! Spans are resolved with `SpanManager::get_span`; the span context of every
+//! token is checked to be the context the lexer was created with (a foreign
+//! context is reported as `"ctx": false` on the token).
+
+use rsjsonnet_lang::arena::Arena;
+use rsjsonnet_lang::interner::StrInterner;
+use rsjsonnet_lang::lexer::{LexError, Lexer};
+use rsjsonnet_lang::span::{SpanId, SpanManager};
+use rsjsonnet_lang::token::TokenKind;
 use serde_json::{Value as J, json};
 
-pub fn run(_case: &J) -> J {
-    json!({"tool_error": "not implemented"})
+fn error_parts(e: &LexError) -> (&'static str, SpanId) {
+    match *e {
+        LexError::InvalidChar { span, .. } => ("InvalidChar", span),
+        LexError::InvalidUtf8 { span, .. } => ("InvalidUtf8", span),
+        LexError::UnfinishedMultilineComment { span } => ("UnfinishedMultilineComment", span),
+        LexError::LeadingZeroInNumber { span } => ("LeadingZeroInNumber", span),
+        LexError::MissingFracDigits { span } => ("MissingFracDigits", span),
+        LexError::MissingExpDigits { span } => ("MissingExpDigits", span),
+        LexError::MissingDigitAfterUnderscore { span } => ("MissingDigitAfterUnderscore", span),
+        LexError::ExpOverflow { span } => ("ExpOverflow", span),
+        LexError::InvalidEscapeInString { span, .. } => ("InvalidEscapeInString", span),
+        LexError::IncompleteUnicodeEscape { span } => ("IncompleteUnicodeEscape", span),
+        LexError::InvalidUtf16EscapeSequence { span, .. } => ("InvalidUtf16EscapeSequence", span),
+        LexError::UnfinishedString { span } => ("UnfinishedString", span),
+        LexError::MissingLineBreakAfterTextBlockStart { span } => {
+            ("MissingLineBreakAfterTextBlockStart", span)
+        }
+        LexError::MissingWhitespaceTextBlockStart { span } => {
+            ("MissingWhitespaceTextBlockStart", span)
+        }
+        LexError::InvalidTextBlockTermination { span } => ("InvalidTextBlockTermination", span),
+    }
+}
+
+fn code_points(s: &str) -> J {
+    J::Array(s.chars().map(|c| json!(u32::from(c))).collect())
+}
+
+fn lex_once(input: &[u8], with_ws: bool, values: bool) -> J {
+    let arena = Arena::new();
+    let ast_arena = Arena::new();
+    let interner = StrInterner::new();
+    let mut span_mgr = SpanManager::new();
+    let (span_ctx, _) = span_mgr.insert_source_context(input.len());
+    let lexer = Lexer::new(&arena, &ast_arena, &interner, &mut span_mgr, span_ctx, input);
+    match lexer.lex_to_eof(with_ws) {
+        Ok(tokens) => {
+            let mut out = Vec::with_capacity(tokens.len());
+            for tok in tokens.iter() {
+                let (ctx, start, end) = span_mgr.get_span(tok.span);
+                let (kind, value): (String, Option<J>) = match tok.kind {
+                    TokenKind::EndOfFile => ("EndOfFile".into(), None),
+                    TokenKind::Whitespace => ("Whitespace".into(), None),
+                    TokenKind::Comment => ("Comment".into(), None),
+                    TokenKind::Simple(s) => (format!("{s:?}"), None),
+                    TokenKind::OtherOp(s) => ("OtherOp".into(), Some(json!(s))),
+                    TokenKind::Ident(ref s) => ("Ident".into(), Some(json!(s.value()))),
+                    TokenKind::Number(n) => (
+                        "Number".into(),
+                        Some(json!({"digits": n.digits, "exp": n.exp})),
+                    ),
+                    TokenKind::String(s) => ("String".into(), Some(code_points(s))),
+                    TokenKind::TextBlock(s) => ("TextBlock".into(), Some(code_points(s))),
+                };
+                let mut t = json!({"kind": kind, "start": start, "end": end});
+                if values {
+                    if let Some(v) = value {
+                        t["value"] = v;
+                    }
+                }
+                if ctx != span_ctx {
+                    t["ctx"] = json!(false);
+                }
+                out.push(t);
+            }
+            json!({"tokens": out})
+        }
+        Err(e) => {
+            let (kind, span) = error_parts(&e);
+            let (ctx, start, end) = span_mgr.get_span(span);
+            let mut err = json!({"kind": kind, "start": start, "end": end});
+            if ctx != span_ctx {
+                err["ctx"] = json!(false);
+            }
+            json!({"error": err})
+        }
+    }
+}
+
+fn input_bytes(case: &J) -> Result<Vec<u8>, String> {
+    if let Some(arr) = case.get("bytes").and_then(|b| b.as_array()) {
+        let mut v = Vec::with_capacity(arr.len());
+        for x in arr {
+            match x.as_u64() {
+                Some(b) if b < 256 => v.push(b as u8),
+                _ => return Err(format!("bad byte {x}")),
+            }
+        }
+        return Ok(v);
+    }
+    if let Some(h) = case.get("hex").and_then(|h| h.as_str()) {
+        let hb = h.as_bytes();
+        if hb.len() % 2 != 0 {
+            return Err("odd hex length".into());
+        }
+        let nib = |c: u8| -> Result<u8, String> {
+            match c {
+                b'0'..=b'9' => Ok(c - b'0'),
+                b'a'..=b'f' => Ok(c - b'a' + 10),
+                b'A'..=b'F' => Ok(c - b'A' + 10),
+                _ => Err(format!("bad hex digit {c}")),
+            }
+        };
+        let mut v = Vec::with_capacity(hb.len() / 2);
+        for p in hb.chunks(2) {
+            v.push((nib(p[0])? << 4) | nib(p[1])?);
+        }
+        return Ok(v);
+    }
+    Err("lex case needs `bytes` or `hex`".into())
+}
+
+pub fn run(case: &J) -> J {
+    let input = match input_bytes(case) {
+        Ok(v) => v,
+        Err(e) => return json!({"tool_error": e}),
+    };
+    let values = case.get("values").and_then(|v| v.as_bool()).unwrap_or(true);
+    let all = lex_once(&input, true, values);
+    let nows = lex_once(&input, false, values);
+    json!({"len": input.len(), "all": all, "nows": nows})
 }
